@@ -196,7 +196,8 @@ def setValid (cfg : Config) (sh : Shape) : Shape :=
 /-- `_statements_without_shapes_to_remove` through the `direct_statements` / `inverse_statements`
 setters (which move the rewritten direction to the end of the list) -/
 def dropRefs (cfg : Config) (gone : List String) (sh : Shape) : Shape :=
-  let keep (s : Stmt) : Bool := !gone.contains s.ty
+  -- a plain statement is kept unless its type is a removed shape; a disjunction unless one of its types is
+  let keep (s : Stmt) : Bool := !gone.contains s.ty && (!s.choice || !(s.types.any fun ty => gone.contains ty))
   let direct := (sh.stmts.filter fun s => !s.inverse).filter keep
   let inv := sh.stmts.filter fun s => s.inverse
   if cfg.inverse then { sh with stmts := direct ++ inv.filter keep }
